@@ -568,4 +568,762 @@ theorem fastaBytes_recs (recs : List (Str × List Str)) (hwf : WfRecs ['>'] recs
     simp only [List.map_cons, List.filterMap_cons] at h2
     exact h2
 
+/-! ### the repaired bytes based parser (split at line starts only) -/
+
+/-- no `>` at a line start inside `s` -/
+def NoSplit : Bool → Str → Prop
+  | _, [] => True
+  | bol, c :: cs => ¬ (bol = true ∧ c = '>') ∧ NoSplit (decide (c = '\n')) cs
+
+theorem splitLabelStart_none : ∀ (a : Str) (bol : Bool), NoSplit bol a → splitLabelStart bol a = [a]
+  | [], _, _ => rfl
+  | c :: cs, bol, h => by
+    obtain ⟨h1, h2⟩ := h
+    have ih := splitLabelStart_none cs _ h2
+    have : (bol && decide (c = '>')) = false := by
+      cases bol <;> simp at h1 ⊢; exact h1
+    simp [splitLabelStart, this, ih, consHead]
+
+theorem splitLabelStart_sep (rest : Str) : ∀ (a : Str) (bol : Bool), NoSplit bol a → a.getLast? = some '\n' →
+    splitLabelStart bol (a ++ '>' :: rest) = a :: splitLabelStart false rest
+  | [], _, _, hl => by simp at hl
+  | [c], bol, h, hl => by
+    simp at hl
+    subst hl
+    have : (bol && decide ('\n' = '>')) = false := by cases bol <;> decide
+    simp [splitLabelStart, consHead]
+  | c :: c2 :: cs, bol, h, hl => by
+    obtain ⟨h1, h2⟩ := h
+    rw [List.getLast?_cons_cons] at hl
+    have ih := splitLabelStart_sep rest (c2 :: cs) _ h2 hl
+    have : (bol && decide (c = '>')) = false := by
+      cases bol <;> simp at h1 ⊢; exact h1
+    simp only [List.cons_append] at ih ⊢
+    rw [splitLabelStart]
+    simp only [this, Bool.false_eq_true, if_false]
+    rw [ih]; rfl
+
+theorem noSplit_line (rest : Str) (hr : NoSplit true rest) : ∀ (l : Str) (bol : Bool), l ≠ [] →
+    (∀ c ∈ l, c ≠ '\n') → (bol = true → l.head? ≠ some '>') → NoSplit bol (l ++ '\n' :: rest)
+  | [], _, h, _, _ => absurd rfl h
+  | [c], bol, _, hnl, hh => by
+    have hc : c ≠ '\n' := hnl c List.mem_cons_self
+    refine ⟨fun ⟨hb, he⟩ => hh hb (by simp [he]), ?_⟩
+    simp only [hc, decide_false]
+    exact ⟨by simp, by simpa using hr⟩
+  | c :: c2 :: cs, bol, _, hnl, hh => by
+    have hc : c ≠ '\n' := hnl c List.mem_cons_self
+    refine ⟨fun ⟨hb, he⟩ => hh hb (by simp [he]), ?_⟩
+    simp only [hc, decide_false]
+    exact noSplit_line rest hr (c2 :: cs) false (by simp) (fun d hd => hnl d (List.mem_cons_of_mem _ hd)) (by simp)
+
+theorem printable_ne_nl {c : Char} (h : printable c = true) : c ≠ '\n' := by
+  rintro rfl; rw [nl_not_printable] at h; exact absurd h (by simp)
+
+theorem noSplit_unlines : ∀ (ws : List Str), (∀ w ∈ ws, wfSeq ['>'] w = true) → NoSplit true (unlines ws)
+  | [], _ => by simp [unlines, NoSplit]
+  | w :: ws, h => by
+    rw [unlines_cons]
+    obtain ⟨hne, hc⟩ := wfSeq_chars (h w List.mem_cons_self)
+    apply noSplit_line _ (noSplit_unlines ws (fun x hx => h x (List.mem_cons_of_mem _ hx))) w true hne
+    · exact fun c hcw => printable_ne_nl (seqChar_printable (hc c hcw))
+    · intro _ he
+      have := seqChar_not_label (hc _ (List.mem_of_head? he))
+      simp at this
+
+theorem noSplit_body {r : Str × List Str} (hn : wfName r.1 = true) (hw : wfLines ['>'] r.2 = true) :
+    NoSplit false (recBody r) := by
+  unfold recBody
+  exact noSplit_line _ (noSplit_unlines r.2 (wfLines_iff hw).2) r.1 false (wfName_chars hn).1
+    (fun c hc => printable_ne_nl ((wfName_chars hn).2 c hc)) (by simp)
+
+theorem unlines_last : ∀ (ws : List Str), unlines ws = [] ∨ (unlines ws).getLast? = some '\n'
+  | [] => Or.inl (by simp [unlines])
+  | w :: ws => by
+    right
+    rw [unlines_cons]
+    rcases unlines_last ws with h | h
+    · rw [h]; simp
+    · rw [show w ++ '\n' :: unlines ws = (w ++ ['\n']) ++ unlines ws by simp]
+      rw [List.getLast?_append, h]; rfl
+
+theorem recBody_last (r : Str × List Str) : (recBody r).getLast? = some '\n' := by
+  unfold recBody
+  rcases unlines_last r.2 with h | h
+  · rw [h]; simp
+  · rw [show r.1 ++ '\n' :: unlines r.2 = (r.1 ++ ['\n']) ++ unlines r.2 by simp]
+    rw [List.getLast?_append, h]; rfl
+
+theorem splitLabelStart_bodies : ∀ (recs : List (Str × List Str)) (r : Str × List Str),
+    (∀ x ∈ r :: recs, NoSplit false (recBody x)) →
+    splitLabelStart false (recBody r ++ recs.flatMap (fun x => '>' :: recBody x)) = recBody r :: recs.map recBody
+  | [], r, h => by simpa using splitLabelStart_none _ _ (h r List.mem_cons_self)
+  | r' :: recs, r, h => by
+    have ih := splitLabelStart_bodies recs r' (fun x hx => h x (List.mem_cons_of_mem _ hx))
+    simp only [List.flatMap_cons, List.cons_append, List.map_cons]
+    rw [splitLabelStart_sep _ _ _ (h r List.mem_cons_self) (recBody_last r), ih]
+
+/-- the repaired bytes based parser returns every well-formed label verbatim — no `>` hypothesis -/
+theorem fastaBytesLS_recs (recs : List (Str × List Str)) (hwf : WfRecs ['>'] recs)
+    (hlow : ∀ r ∈ recs, noLower r.2.flatten = true) :
+    fastaBytesLS (unlines (recLines '>' recs)) = expected recs := by
+  rw [unlines_recLines]
+  cases recs with
+  | nil => simp [fastaBytesLS, splitLabelStart, bytesRecord, expected]
+  | cons r rs =>
+    have hb : ∀ x ∈ r :: rs, NoSplit false (recBody x) := fun x hx => noSplit_body (hwf x hx).1 (hwf x hx).2
+    have := splitLabelStart_bodies rs r hb
+    unfold recBody at this
+    unfold fastaBytesLS
+    simp only [List.flatMap_cons, List.cons_append, splitLabelStart, Bool.true_and, decide_true, if_true]
+    rw [this]
+    have hnone : bytesRecord [] = none := by simp [bytesRecord]
+    simp only [List.filterMap_cons, hnone]
+    have hall : ∀ (xs : List (Str × List Str)), (∀ x ∈ xs, x ∈ r :: rs) →
+        (xs.map recBody).filterMap bytesRecord = expected xs := by
+      intro xs
+      induction xs with
+      | nil => intro _; simp [expected]
+      | cons x xs ih =>
+        intro hx
+        have hx1 := hx x List.mem_cons_self
+        have := bytesRecord_body (hwf x hx1).1 (hwf x hx1).2 (hlow x hx1)
+        simp only [List.map_cons, List.filterMap_cons, this, expected]
+        rw [ih (fun y hy => hx y (List.mem_cons_of_mem _ hy))]
+        simp [expected]
+    have h2 := hall (r :: rs) (fun x hx => hx)
+    simp only [List.map_cons, List.filterMap_cons] at h2
+    exact h2
+
+/-! ### GDE -/
+
+theorem wrapNl_eq {lc : List Char} {bs : Nat} (hbs : 0 < bs) {s : Str} (h : wfSeq lc s = true) :
+    wrapNl bs s = unlines (chunkWrap bs s) := by
+  unfold wrapNl
+  exact joinNl_unlines _ ((chunkGo_spec hbs s.length s (Nat.le_refl _)).2.2 (wfSeq_chars h).1)
+
+/-- the records with their sequences cut into blocks -/
+def blocked (bs : Nat) (recs : List Rec) : List (Str × List Str) := recs.map (fun r => (r.1, chunkWrap bs r.2))
+
+theorem gdeFormat_eq {lc : List Char} {bs : Nat} (hbs : 0 < bs) : ∀ (recs : List Rec),
+    (∀ r ∈ recs, wfSeq lc r.2 = true) → gdeFormat bs recs = unlines (recLines '%' (blocked bs recs))
+  | [], _ => by simp [gdeFormat, blocked, recLines, unlines]
+  | r :: recs, h => by
+    have ih := gdeFormat_eq hbs recs (fun x hx => h x (List.mem_cons_of_mem _ hx))
+    rw [unlines_recLines] at ih ⊢
+    simp only [gdeFormat, blocked, List.map_cons, List.flatMap_cons] at ih ⊢
+    rw [ih, wrapNl_eq hbs (h r List.mem_cons_self)]
+
+theorem blocked_wf {lc : List Char} {bs : Nat} (hbs : 0 < bs) {recs : List Rec}
+    (hwf : ∀ r ∈ recs, wfName r.1 = true ∧ wfSeq lc r.2 = true) : WfRecs lc (blocked bs recs) := by
+  intro r hr
+  obtain ⟨x, hx, rfl⟩ := List.mem_map.mp hr
+  exact ⟨(hwf x hx).1, chunkWrap_wfLines hbs (hwf x hx).2⟩
+
+theorem expected_blocked {bs : Nat} (hbs : 0 < bs) (recs : List Rec) : expected (blocked bs recs) = recs := by
+  unfold expected blocked
+  rw [List.map_map]
+  conv => rhs; rw [← List.map_id recs]
+  apply List.map_congr_left
+  intro r _
+  simp [chunkWrap_flatten hbs]
+
+/-! ### decimal numbers and the header line -/
+
+theorem revDigits_lt : ∀ (f n : Nat), ∀ d ∈ revDigits f n, d < 10
+  | 0, _, d, h => by simp [revDigits] at h
+  | f + 1, n, d, h => by
+    simp only [revDigits] at h
+    split at h
+    · simp at h; omega
+    · rcases List.mem_cons.mp h with e | e
+      · omega
+      · exact revDigits_lt f _ d e
+
+theorem valRev_revDigits : ∀ (f n : Nat), n < f → valRev (revDigits f n) = n
+  | 0, _, h => by omega
+  | f + 1, n, h => by
+    simp only [revDigits]
+    split
+    · simp [valRev]
+    · simp only [valRev]
+      rw [valRev_revDigits f (n / 10) (by omega)]
+      omega
+
+theorem revDigits_ne_nil (f n : Nat) : revDigits (f + 1) n ≠ [] := by
+  simp only [revDigits]; split <;> simp
+
+theorem digit_facts : ∀ d, d < 10 → digitVal (digitChar d) = d ∧ isDigit (digitChar d) = true ∧
+    printable (digitChar d) = true ∧ digitChar d ≠ ' ' ∧ digitChar d ≠ '-' ∧ digitChar d ≠ '+' := by
+  decide
+
+theorem natDigits_chars (n : Nat) : ∀ c ∈ natDigits n, isDigit c = true ∧ printable c = true ∧ c ≠ ' ' ∧ c ≠ '-' ∧ c ≠ '+' := by
+  intro c hc
+  simp only [natDigits, List.mem_map, List.mem_reverse] at hc
+  obtain ⟨d, hd, rfl⟩ := hc
+  have := digit_facts d (revDigits_lt _ _ d hd)
+  exact ⟨this.2.1, this.2.2.1, this.2.2.2.1, this.2.2.2.2.1, this.2.2.2.2.2⟩
+
+theorem natDigits_ne_nil (n : Nat) : natDigits n ≠ [] := by
+  simp [natDigits, revDigits_ne_nil]
+
+theorem pyInt_natDigits (n : Nat) : pyInt (natDigits n) = .ok (n : Int) := by
+  have hch := natDigits_chars n
+  have hne := natDigits_ne_nil n
+  have hval : valRev ((natDigits n).reverse.map digitVal) = n := by
+    simp only [natDigits]
+    rw [← List.map_reverse, List.reverse_reverse, List.map_map]
+    have : (revDigits (n + 1) n).map (digitVal ∘ digitChar) = revDigits (n + 1) n := by
+      conv => rhs; rw [← List.map_id (revDigits (n + 1) n)]
+      apply List.map_congr_left
+      intro d hd
+      exact (digit_facts d (revDigits_lt _ _ d hd)).1
+    rw [this, valRev_revDigits _ _ (by omega)]
+  have hall : (natDigits n).all isDigit = true := by
+    simp only [List.all_eq_true]; exact fun c hc => (hch c hc).1
+  have hemp : (natDigits n).isEmpty = false := by cases h : natDigits n <;> simp_all
+  have hss : signSplit (natDigits n) = (false, natDigits n) := by
+    cases h : natDigits n with
+    | nil => exact absurd h hne
+    | cons c r =>
+      have hc := hch c (by rw [h]; exact List.mem_cons_self)
+      simp [signSplit, hc.2.2.2.1, hc.2.2.2.2]
+  unfold pyInt
+  rw [List.map_reverse] at hval
+  simp [hss, hall, hemp, hval]
+
+theorem splitWs_cons2 (c d : Char) (cs : Str) : splitWs (c :: d :: cs) =
+    if isSpaceStr c then splitWs (d :: cs)
+    else if isSpaceStr d then [c] :: splitWs (d :: cs) else consHead c (splitWs (d :: cs)) := rfl
+
+theorem splitWs_word : ∀ (w : Str), w ≠ [] → (∀ c ∈ w, isSpaceStr c = false) → splitWs w = [w]
+  | [], h, _ => absurd rfl h
+  | [c], _, hs => by simp [splitWs, hs c List.mem_cons_self]
+  | c :: c2 :: cs, _, hs => by
+    have ih := splitWs_word (c2 :: cs) (by simp) (fun d hd => hs d (List.mem_cons_of_mem _ hd))
+    have h1 := hs c List.mem_cons_self
+    have h2 := hs c2 (by simp)
+    rw [splitWs_cons2]
+    simp only [h1, h2, Bool.false_eq_true, if_false, ih, consHead]
+
+theorem splitWs_word_sp (rest : Str) : ∀ (w : Str), w ≠ [] → (∀ c ∈ w, isSpaceStr c = false) →
+    splitWs (w ++ ' ' :: rest) = w :: splitWs rest
+  | [], h, _ => absurd rfl h
+  | [c], _, hs => by
+    have hsp : isSpaceStr ' ' = true := by decide
+    simp [splitWs, hs c List.mem_cons_self, hsp]
+  | c :: c2 :: cs, _, hs => by
+    have ih := splitWs_word_sp rest (c2 :: cs) (by simp) (fun d hd => hs d (List.mem_cons_of_mem _ hd))
+    have h1 := hs c List.mem_cons_self
+    have h2 := hs c2 (by simp)
+    simp only [List.cons_append] at ih ⊢
+    rw [splitWs_cons2]
+    simp only [h1, h2, Bool.false_eq_true, if_false, ih, consHead]
+
+theorem natDigits_noSpace (n : Nat) : ∀ c ∈ natDigits n, isSpaceStr c = false := by
+  intro c hc
+  obtain ⟨_, hp, hs, _⟩ := natDigits_chars n c hc
+  rw [printable_space hp]; simpa using hs
+
+theorem splitWs_header (a b : Nat) :
+    splitWs (natDigits a ++ ' ' :: ' ' :: natDigits b) = [natDigits a, natDigits b] := by
+  rw [splitWs_word_sp _ _ (natDigits_ne_nil a) (natDigits_noSpace a)]
+  have hsp : isSpaceStr ' ' = true := by decide
+  cases hb : natDigits b with
+  | nil => exact absurd hb (natDigits_ne_nil b)
+  | cons c cs =>
+  rw [splitWs_cons2]
+  simp only [hsp, if_true]
+  rw [← hb, splitWs_word _ (natDigits_ne_nil b) (natDigits_noSpace b)]
+
+/-! ### PAML -/
+
+/-- name line followed by the block lines, for every record -/
+def plainLines (recs : List (Str × List Str)) : List Str := recs.flatMap (fun r => r.1 :: r.2)
+
+theorem pamlGo_cons (ns sl : Int) (name : Option Str) (cur : List Str) (len n : Nat) (line : Str) (rest : List Str) :
+    pamlGo ns sl name cur len n (line :: rest) =
+    (let line := strip line
+     if line.isEmpty then pamlGo ns sl name cur len n rest
+     else match name with
+       | none => pamlGo ns sl (some line) cur len n rest
+       | some nm =>
+         let len' := len + line.length
+         let cur' := cur ++ [line]
+         if (len' : Int) = sl then
+           (pamlGo ns sl none [] 0 (n + 1) rest).map (fun rs => (nm, upper cur'.flatten) :: rs)
+         else pamlGo ns sl (some nm) cur' len' n rest) := rfl
+
+theorem pamlGo_blocks {lc : List Char} (ns : Int) (L : Nat) (nm : Str) (rest : List Str) :
+    ∀ (ws cur : List Str) (len n : Nat), (∀ w ∈ ws, wfSeq lc w = true) → ws ≠ [] → len + ws.flatten.length = L →
+    pamlGo ns L (some nm) cur len n (ws ++ rest) =
+      (pamlGo ns L none [] 0 (n + 1) rest).map (fun rs => (nm, upper (cur ++ ws).flatten) :: rs)
+  | [], _, _, _, _, h, _ => absurd rfl h
+  | w :: ws, cur, len, n, hw, _, hL => by
+    have hww := hw w List.mem_cons_self
+    obtain ⟨hne, _⟩ := wfSeq_chars hww
+    have hemp : w.isEmpty = false := by cases w <;> simp at hne ⊢
+    simp only [List.cons_append]
+    rw [pamlGo_cons]
+    simp only [wfSeq_strip hww, hemp, Bool.false_eq_true, if_false]
+    by_cases hws : ws = []
+    · subst hws
+      simp only [List.flatten_cons, List.flatten_nil, List.append_nil] at hL
+      have : ((len + w.length : Nat) : Int) = (L : Int) := by rw [hL]
+      simp [this]
+    · have hpos : 0 < ws.flatten.length := by
+        cases ws with
+        | nil => exact absurd rfl hws
+        | cons w2 ws2 =>
+          have := (wfSeq_chars (hw w2 (by simp))).1
+          have : 0 < w2.length := List.length_pos_iff.mpr this
+          simp; omega
+      simp only [List.flatten_cons, List.length_append] at hL
+      have hneq : ¬ (((len + w.length : Nat) : Int) = (L : Int)) := by
+        intro e; have := Int.ofNat.inj e; omega
+      simp only [hneq, if_false]
+      rw [pamlGo_blocks ns L nm rest ws (cur ++ [w]) (len + w.length) n
+        (fun x hx => hw x (List.mem_cons_of_mem _ hx)) hws (by omega)]
+      simp
+
+theorem pamlGo_recs {lc : List Char} (L : Nat) : ∀ (recs : List (Str × List Str)) (n : Nat) (ns : Int),
+    WfRecs lc recs → (∀ r ∈ recs, r.2.flatten.length = L) → ns = ((n + recs.length : Nat) : Int) →
+    pamlGo ns L none [] 0 n (plainLines recs) = .ok (recs.map (fun r => (r.1, upper r.2.flatten)))
+  | [], n, ns, _, _, hns => by
+    simp only [List.length_nil, Nat.add_zero] at hns
+    simp [plainLines, pamlGo, hns]
+  | r :: recs, n, ns, hwf, hlen, hns => by
+    have hr := hwf r List.mem_cons_self
+    obtain ⟨hne, hws⟩ := wfLines_iff hr.2
+    have hnm : r.1.isEmpty = false := by
+      have := (wfName_chars hr.1).1
+      cases h : r.1 <;> simp_all
+    have ih := pamlGo_recs L recs (n + 1) ns (fun x hx => hwf x (List.mem_cons_of_mem _ hx))
+      (fun x hx => hlen x (List.mem_cons_of_mem _ hx)) (by rw [hns]; simp; omega)
+    simp only [plainLines, List.flatMap_cons, List.cons_append] at ih ⊢
+    rw [pamlGo_cons]
+    simp only [(wfName_strip hr.1).1, hnm, Bool.false_eq_true, if_false]
+    rw [pamlGo_blocks ns L r.1 _ r.2 [] 0 n hws hne (by simpa using hlen r List.mem_cons_self), ih]
+    simp [Except.map]
+
+theorem unlines_plainLines : ∀ (recs : List (Str × List Str)),
+    unlines (plainLines recs) = recs.flatMap (fun r => r.1 ++ '\n' :: unlines r.2)
+  | [] => by simp [plainLines, unlines]
+  | r :: recs => by
+    have ih := unlines_plainLines recs
+    simp only [plainLines] at ih
+    simp only [plainLines, List.flatMap_cons, unlines_append, unlines_cons, ih]
+
+theorem pamlBody_eq {lc : List Char} {bs : Nat} (hbs : 0 < bs) : ∀ (recs : List Rec),
+    (∀ r ∈ recs, wfSeq lc r.2 = true) →
+    recs.flatMap (fun r => r.1 ++ '\n' :: wrapNl bs r.2) = unlines (plainLines (blocked bs recs))
+  | [], _ => by simp [blocked, plainLines, unlines]
+  | r :: recs, h => by
+    have ih := pamlBody_eq hbs recs (fun x hx => h x (List.mem_cons_of_mem _ hx))
+    rw [unlines_plainLines] at ih ⊢
+    simp only [blocked, List.map_cons, List.flatMap_cons] at ih ⊢
+    rw [ih, wrapNl_eq hbs (h r List.mem_cons_self)]
+
+theorem plainLines_noBreak {lc : List Char} {recs : List (Str × List Str)} (hwf : WfRecs lc recs) :
+    NoBreak (plainLines recs) := by
+  intro l hl c hc
+  simp only [plainLines, List.mem_flatMap, List.mem_cons] at hl
+  obtain ⟨r, hr, hl | hl⟩ := hl
+  · subst hl
+    exact printable_not_break ((wfName_chars (hwf r hr).1).2 c hc)
+  · obtain ⟨_, hws⟩ := wfLines_iff (hwf r hr).2
+    exact printable_not_break (seqChar_printable ((wfSeq_chars (hws l hl)).2 c hc))
+
+theorem header_noBreak (a b : Nat) : ∀ c ∈ natDigits a ++ ' ' :: ' ' :: natDigits b, isBreak c = false := by
+  intro c hc
+  simp only [List.mem_append, List.mem_cons] at hc
+  rcases hc with h | h | h | h
+  · exact printable_not_break (natDigits_chars a c h).2.1
+  · subst h; decide
+  · subst h; decide
+  · exact printable_not_break (natDigits_chars b c h).2.1
+
+theorem noBreak_cons {l : Str} {ls : List Str} (h1 : ∀ c ∈ l, isBreak c = false) (h2 : NoBreak ls) : NoBreak (l :: ls) := by
+  intro x hx
+  rcases List.mem_cons.mp hx with e | e
+  · subst e; exact h1
+  · exact h2 x e
+
+/-- PAML: parse (write recs) = recs -/
+theorem paml_roundtrip' {bs : Nat} (hbs : 0 < bs) (recs : List Rec) (hne : recs ≠ []) (L : Nat)
+    (hwf : ∀ r ∈ recs, wfName r.1 = true ∧ wfSeq [] r.2 = true ∧ noLower r.2 = true ∧ r.2.length = L) :
+    ∃ text, pamlFormat bs recs = .ok text ∧ pamlParse text = .ok recs := by
+  cases hrecs : recs with
+  | nil => exact absurd hrecs hne
+  | cons r0 rest =>
+    rw [← hrecs]
+    have hL0 : r0.2.length = L := (hwf r0 (by rw [hrecs]; exact List.mem_cons_self)).2.2.2
+    have hhead : headerLine recs = some (natDigits recs.length ++ ' ' :: ' ' :: natDigits L) := by
+      rw [hrecs]; simp [headerLine, hL0]
+    have hw : WfRecs [] (blocked bs recs) := blocked_wf hbs (fun r hr => ⟨(hwf r hr).1, (hwf r hr).2.1⟩)
+    refine ⟨_, by unfold pamlFormat; rw [hhead], ?_⟩
+    rw [pamlBody_eq hbs recs (fun r hr => (hwf r hr).2.1), ← unlines_cons]
+    unfold pamlParse
+    rw [pySplitlines_unlines (noBreak_cons (header_noBreak _ _) (plainLines_noBreak hw))]
+    unfold pamlParser
+    simp only [splitWs_header, pyInt_natDigits, bind, Except.bind]
+    rw [pamlGo_recs L (blocked bs recs) 0 _ hw ?_ (by simp [blocked])]
+    · congr 1
+      unfold blocked
+      rw [List.map_map]
+      conv => rhs; rw [← List.map_id recs]
+      apply List.map_congr_left
+      intro r hr
+      simp [chunkWrap_flatten hbs, upper_id (hwf r hr).2.2.1]
+    · intro r hr
+      obtain ⟨x, hx, rfl⟩ := List.mem_map.mp hr
+      simp [chunkWrap_flatten hbs, (hwf x hx).2.2.2]
+
+/-! ### PHYLIP -/
+
+def sp10 : Str := List.replicate 10 ' '
+
+/-- the lines `PhylipFormatter.format` writes for one sequence whose blocks are `ws` -/
+def phyRecLines (name : Str) (ws : List Str) : List Str :=
+  match ws with
+  | [] => []
+  | c0 :: cs => (pad10 (name.take 9) ++ c0) :: cs.map (sp10 ++ ·)
+
+theorem phylipBlocks_cons (bs L : Nat) (name seq : Str) (fuel block : Nat) :
+    phylipBlocks bs L name seq (fuel + 1) block =
+    if block < L ∧ 0 < bs then
+      ((if block = 0 then (if name.length > 9 then pad10 (name.take 9) else pad10 name) else List.replicate 10 ' ') ++
+        (seq.drop block).take ((if block + bs > L then L else block + bs) - block)) ::
+        phylipBlocks bs L name seq fuel (block + bs)
+    else [] := rfl
+
+theorem chunkGo_cons (bs fuel : Nat) (s : Str) : chunkGo bs (fuel + 1) s =
+    if s.isEmpty || bs = 0 then [] else s.take bs :: chunkGo bs fuel (s.drop bs) := rfl
+
+theorem take_block {seq : Str} {L bs block : Nat} (hL : seq.length = L) (hb : block < L) :
+    (seq.drop block).take ((if block + bs > L then L else block + bs) - block) = (seq.drop block).take bs := by
+  split
+  · rw [List.take_of_length_le (by rw [List.length_drop]; omega), List.take_of_length_le (by rw [List.length_drop]; omega)]
+  · congr 1; omega
+
+theorem phylipBlocks_later {bs L : Nat} (hbs : 0 < bs) (name : Str) {seq : Str} (hL : seq.length = L) :
+    ∀ (fuel block : Nat), 0 < block →
+    phylipBlocks bs L name seq fuel block = (chunkGo bs fuel (seq.drop block)).map (sp10 ++ ·)
+  | 0, _, _ => by simp [phylipBlocks, chunkGo]
+  | fuel + 1, block, hpos => by
+    rw [phylipBlocks_cons, chunkGo_cons]
+    have hb0 : ¬ (bs = 0) := by omega
+    have hne : ¬ (block = 0) := by omega
+    by_cases hb : block < L
+    · have hemp : (seq.drop block).isEmpty = false := by
+        have : 0 < (seq.drop block).length := by rw [List.length_drop]; omega
+        cases h : seq.drop block <;> simp_all
+      simp only [hb, hbs, and_self, if_true, hne, if_false, hemp, hb0, Bool.false_or, decide_false, Bool.false_eq_true]
+      rw [take_block hL hb, phylipBlocks_later hbs name hL fuel (block + bs) (by omega), List.drop_drop]
+      simp [sp10]
+    · have hemp : (seq.drop block).isEmpty = true := by
+        have : (seq.drop block).length = 0 := by rw [List.length_drop]; omega
+        cases h : seq.drop block <;> simp_all
+      simp [hb, hemp]
+
+theorem pad10_take9 (name : Str) : (if name.length > 9 then pad10 (name.take 9) else pad10 name) = pad10 (name.take 9) := by
+  split
+  · rfl
+  · rw [List.take_of_length_le (by omega)]
+
+theorem phylipBlocks_eq {bs L : Nat} (hbs : 0 < bs) (name : Str) {seq : Str} (hL : seq.length = L) :
+    phylipBlocks bs L name seq (L + 1) 0 = phyRecLines name (chunkWrap bs seq) := by
+  rw [phylipBlocks_cons]
+  unfold chunkWrap
+  by_cases h0 : 0 < L
+  · have hemp : seq.isEmpty = false := by cases seq <;> simp_all
+    have hb0 : ¬ (bs = 0) := by omega
+    obtain ⟨k, hk⟩ : ∃ k, seq.length = k + 1 := ⟨L - 1, by omega⟩
+    rw [hk, chunkGo_cons]
+    simp only [h0, hbs, and_self, if_true, pad10_take9, hemp, hb0, Bool.false_or, decide_false, Bool.false_eq_true, if_false]
+    have := take_block (bs := bs) hL h0
+    simp only [List.drop_zero, Nat.zero_add, Nat.sub_zero] at this
+    simp only [Nat.zero_add, Nat.sub_zero, List.drop_zero]
+    rw [this, phylipBlocks_later hbs name hL L bs hbs]
+    have hkL : k = L - 1 := by omega
+    subst hkL
+    have : L - 1 + 1 = L := by omega
+    simp only [phyRecLines]
+    congr 2
+    -- fuel L vs L - 1: both are enough
+    have key : ∀ (f1 f2 : Nat) (s : Str), s.length ≤ f1 → s.length ≤ f2 → chunkGo bs f1 s = chunkGo bs f2 s := by
+      intro f1
+      induction f1 with
+      | zero =>
+        intro f2 s h1 _
+        have : s = [] := List.length_eq_zero_iff.mp (by omega)
+        subst this
+        cases f2 <;> simp [chunkGo]
+      | succ f1 ih =>
+        intro f2 s h1 h2
+        cases f2 with
+        | zero =>
+          have : s = [] := List.length_eq_zero_iff.mp (by omega)
+          subst this; simp [chunkGo]
+        | succ f2 =>
+          rw [chunkGo_cons, chunkGo_cons]
+          by_cases hs : s = []
+          · subst hs; simp
+          · have hlen : 0 < s.length := List.length_pos_iff.mpr hs
+            rw [ih f2 (s.drop bs) (by rw [List.length_drop]; omega) (by rw [List.length_drop]; omega)]
+    exact key _ _ _ (by rw [List.length_drop]; omega) (by rw [List.length_drop]; omega)
+  · have : seq = [] := List.length_eq_zero_iff.mp (by omega)
+    subst this
+    have : ¬ (0 < L) := h0
+    simp [this, chunkGo, phyRecLines]
+
+theorem phySeqGo_cons (cache : Option (Str × List Str)) (line : Str) (rest : List Str) :
+    phySeqGo cache (line :: rest) =
+    match splitLine line 10 with
+    | none => phySeqGo cache rest
+    | some (cid, cseq) =>
+      if cid.isEmpty && cseq.isEmpty then phySeqGo cache rest
+      else if !cid.isEmpty then
+        (phySeqGo (some (cid, [cseq])) rest).map (fun rs =>
+          (match cache with
+            | none => []
+            | some c => [(c.1, c.2.flatten)]) ++ rs)
+      else match cache with
+        | none => .error .attributeError
+        | some c => phySeqGo (some (c.1, c.2 ++ [cseq])) rest := rfl
+
+theorem dropWhile_congr_mem {p q : Char → Bool} : ∀ (l : Str), (∀ c ∈ l, p c = q c) → l.dropWhile p = l.dropWhile q
+  | [], _ => rfl
+  | c :: cs, h => by
+    have hc := h c List.mem_cons_self
+    have ih := dropWhile_congr_mem cs (fun d hd => h d (List.mem_cons_of_mem _ hd))
+    simp [List.dropWhile, hc, ih]
+
+theorem dropWhile_spaces (k : Nat) (t : Str) : (List.replicate k ' ' ++ t).dropWhile isSpaceStr = t.dropWhile isSpaceStr := by
+  induction k with
+  | zero => simp
+  | succ k ih =>
+    have : isSpaceStr ' ' = true := by decide
+    simp [List.replicate_succ, this, ih]
+
+/-- what the parser reads back from the blank padded name column -/
+theorem strip_pad {x : Str} (hx : x ≠ []) (hp : ∀ c ∈ x, printable c = true) (hh : x.head? ≠ some ' ') (k : Nat) :
+    strip (x ++ List.replicate k ' ') = (x.reverse.dropWhile (· = ' ')).reverse := by
+  unfold strip stripBy rstripBy
+  cases x with
+  | nil => exact absurd rfl hx
+  | cons c cs =>
+    have hc : isSpaceStr c = false := by
+      rw [printable_space (hp c List.mem_cons_self)]
+      have : c ≠ ' ' := by rintro rfl; exact hh rfl
+      simpa using this
+    have h1 : (c :: cs ++ List.replicate k ' ').dropWhile isSpaceStr = c :: cs ++ List.replicate k ' ' := by
+      simp [hc]
+    rw [h1, List.reverse_append, List.reverse_replicate, dropWhile_spaces]
+    congr 1
+    apply dropWhile_congr_mem
+    intro d hd
+    rw [printable_space (hp d (List.mem_reverse.mp hd))]
+    rfl
+
+theorem pad10_length {x : Str} (h : x.length ≤ 10) : (pad10 x).length = 10 := by
+  simp [pad10]; omega
+
+theorem wfSeq_noSpaceChar {lc : List Char} {w : Str} (h : wfSeq lc w = true) : w.filter (· ≠ ' ') = w := by
+  rw [List.filter_eq_self]
+  intro c hc
+  simpa using seqChar_ne_space ((wfSeq_chars h).2 c hc)
+
+theorem not_blank_of_mem {l : Str} {c : Char} (hc : c ∈ l) (hs : isSpaceStr c = false) : isBlank l = false := by
+  unfold isBlank
+  cases h : l.all isSpaceStr with
+  | false => rfl
+  | true =>
+    rw [List.all_eq_true] at h
+    rw [h c hc] at hs; exact absurd hs (by simp)
+
+/-- the first line of a record: name column + first block -/
+theorem splitLine_first {lc : List Char} {name c0 : Str} (hn : wfName name = true) (hc : wfSeq lc c0 = true) :
+    splitLine (pad10 (name.take 9) ++ c0) 10 = some (truncName name, c0) := by
+  have hlen : (pad10 (name.take 9)).length = 10 := pad10_length (by rw [List.length_take]; omega)
+  obtain ⟨hne, hcc⟩ := wfSeq_chars hc
+  obtain ⟨c, hcm⟩ := List.exists_mem_of_ne_nil _ hne
+  have hnb : isBlank (pad10 (name.take 9) ++ c0) = false :=
+    not_blank_of_mem (List.mem_append_right _ hcm) (seqChar_not_space (hcc c hcm))
+  have hemp : (pad10 (name.take 9) ++ c0).isEmpty = false := by
+    cases h : pad10 (name.take 9) ++ c0 with
+    | nil => rw [h] at hnb; simp [isBlank] at hnb
+    | cons _ _ => rfl
+  obtain ⟨hnne, hnp⟩ := wfName_chars hn
+  have hhead : (name.take 9).head? ≠ some ' ' := by
+    simp only [wfName, Bool.and_eq_true, bne_iff_ne, ne_eq] at hn
+    cases name with
+    | nil => simp
+    | cons a as => simpa using hn.1.2
+  unfold splitLine
+  simp only [hemp, hnb, Bool.or_self, Bool.false_eq_true, if_false]
+  rw [List.take_left' hlen, List.drop_left' hlen, wfSeq_strip hc, wfSeq_noSpaceChar hc]
+  unfold pad10
+  have hx : name.take 9 ≠ [] := by
+    cases name with
+    | nil => exact absurd rfl hnne
+    | cons a as => simp
+  rw [strip_pad hx (fun c hc => hnp c (List.mem_of_mem_take hc)) hhead]
+  rfl
+
+/-- a continuation line: ten blanks + block -/
+theorem splitLine_cont {lc : List Char} {c : Str} (hc : wfSeq lc c = true) :
+    splitLine (sp10 ++ c) 10 = some ([], c) := by
+  have hlen : sp10.length = 10 := by simp [sp10]
+  obtain ⟨hne, hcc⟩ := wfSeq_chars hc
+  obtain ⟨d, hdm⟩ := List.exists_mem_of_ne_nil _ hne
+  have hnb : isBlank (sp10 ++ c) = false :=
+    not_blank_of_mem (List.mem_append_right _ hdm) (seqChar_not_space (hcc d hdm))
+  have hemp : (sp10 ++ c).isEmpty = false := by simp [sp10]
+  unfold splitLine
+  simp only [hemp, hnb, Bool.or_self, Bool.false_eq_true, if_false]
+  rw [List.take_left' hlen, List.drop_left' hlen, wfSeq_strip hc, wfSeq_noSpaceChar hc]
+  have : strip sp10 = [] := by decide
+  rw [this]
+
+theorem truncName_ne_nil {name : Str} (hn : wfName name = true) : (truncName name).isEmpty = false := by
+  simp only [wfName, Bool.and_eq_true, bne_iff_ne, ne_eq, Bool.not_eq_true'] at hn
+  cases name with
+  | nil => simp at hn
+  | cons a as =>
+    have ha : a ≠ ' ' := by simpa using hn.1.2
+    unfold truncName
+    simp only [List.take_succ_cons, List.reverse_cons]
+    cases h : ((List.take 8 as).reverse ++ [a]).dropWhile (· = ' ') with
+    | nil =>
+      have := List.dropWhile_append (p := (· = ' ')) (xs := (List.take 8 as).reverse) (ys := [a])
+      rw [h] at this
+      split at this <;> simp [List.dropWhile, ha] at this
+    | cons x xs => simp
+
+theorem phySeqGo_conts {lc : List Char} (rest : List Str) : ∀ (cs : List Str) (cid : Str) (ps : List Str),
+    (∀ c ∈ cs, wfSeq lc c = true) →
+    phySeqGo (some (cid, ps)) (cs.map (sp10 ++ ·) ++ rest) = phySeqGo (some (cid, ps ++ cs)) rest
+  | [], _, _, _ => by simp
+  | c :: cs, cid, ps, h => by
+    have hc := h c List.mem_cons_self
+    have hce : c.isEmpty = false := by
+      have := (wfSeq_chars hc).1
+      cases c <;> simp_all
+    simp only [List.map_cons, List.cons_append]
+    rw [phySeqGo_cons, splitLine_cont hc]
+    simp only [List.isEmpty_nil, hce, Bool.and_false, Bool.false_eq_true, if_false, Bool.not_true]
+    rw [phySeqGo_conts rest cs cid (ps ++ [c]) (fun x hx => h x (List.mem_cons_of_mem _ hx))]
+    simp
+
+def cacheOut : Option (Str × List Str) → List Rec
+  | none => []
+  | some c => [(c.1, c.2.flatten)]
+
+theorem phySeqGo_recs {lc : List Char} : ∀ (recs : List (Str × List Str)) (cache : Option (Str × List Str)),
+    WfRecs lc recs →
+    phySeqGo cache (recs.flatMap (fun r => phyRecLines r.1 r.2)) =
+      .ok (cacheOut cache ++ recs.map (fun r => (truncName r.1, r.2.flatten)))
+  | [], cache, _ => by cases cache <;> simp [phySeqGo, cacheOut]
+  | r :: recs, cache, hwf => by
+    have hr := hwf r List.mem_cons_self
+    obtain ⟨hne, hws⟩ := wfLines_iff hr.2
+    cases hr2 : r.2 with
+    | nil => exact absurd hr2 hne
+    | cons c0 cs =>
+      rw [hr2] at hws
+      have hc0 := hws c0 List.mem_cons_self
+      have hce : c0.isEmpty = false := by
+        have := (wfSeq_chars hc0).1
+        cases c0 <;> simp_all
+      have e : phyRecLines r.1 r.2 = (pad10 (r.1.take 9) ++ c0) :: cs.map (sp10 ++ ·) := by rw [hr2]; rfl
+      rw [List.flatMap_cons, e, List.cons_append]
+      rw [phySeqGo_cons, splitLine_first hr.1 hc0]
+      simp only [truncName_ne_nil hr.1, hce, Bool.and_self, Bool.false_eq_true, if_false, Bool.not_false, if_true]
+      rw [phySeqGo_conts _ cs _ _ (fun x hx => hws x (List.mem_cons_of_mem _ hx)),
+        phySeqGo_recs recs _ (fun x hx => hwf x (List.mem_cons_of_mem _ hx))]
+      cases cache <;> simp [Except.map, cacheOut, hr2]
+
+theorem phyLines_eq {bs L : Nat} (hbs : 0 < bs) : ∀ (recs : List Rec), (∀ r ∈ recs, r.2.length = L) →
+    recs.flatMap (fun r => phylipBlocks bs L r.1 r.2 (L + 1) 0) =
+      (blocked bs recs).flatMap (fun r => phyRecLines r.1 r.2)
+  | [], _ => by simp [blocked]
+  | r :: recs, h => by
+    have ih := phyLines_eq hbs recs (fun x hx => h x (List.mem_cons_of_mem _ hx))
+    simp only [blocked, List.map_cons, List.flatMap_cons] at ih ⊢
+    rw [ih, phylipBlocks_eq hbs r.1 (h r List.mem_cons_self)]
+
+theorem phyLines_noBreak {lc : List Char} {recs : List (Str × List Str)} (hwf : WfRecs lc recs) :
+    NoBreak (recs.flatMap (fun r => phyRecLines r.1 r.2)) := by
+  intro l hl c hc
+  simp only [List.mem_flatMap] at hl
+  obtain ⟨r, hr, hl⟩ := hl
+  obtain ⟨_, hws⟩ := wfLines_iff (hwf r hr).2
+  have hsp : isBreak ' ' = false := by decide
+  cases hr2 : r.2 with
+  | nil => rw [hr2] at hl; simp [phyRecLines] at hl
+  | cons c0 cs =>
+    rw [hr2] at hl hws
+    simp only [phyRecLines, List.mem_cons, List.mem_map] at hl
+    rcases hl with e | ⟨x, hx, e⟩
+    · subst e
+      simp only [pad10, List.mem_append, List.mem_replicate] at hc
+      rcases hc with (h | h) | h
+      · exact printable_not_break ((wfName_chars (hwf r hr).1).2 c (List.mem_of_mem_take h))
+      · rw [h.2]; exact hsp
+      · exact printable_not_break (seqChar_printable ((wfSeq_chars (hws c0 List.mem_cons_self)).2 c h))
+    · subst e
+      simp only [sp10, List.mem_append, List.mem_replicate] at hc
+      rcases hc with h | h
+      · rw [h.2]; exact hsp
+      · exact printable_not_break (seqChar_printable ((wfSeq_chars (hws x (List.mem_cons_of_mem _ hx))).2 c h))
+
+theorem truncName_short {n : Str} (hn : wfName n = true) (hl : n.length ≤ 9) : truncName n = n := by
+  simp only [wfName, Bool.and_eq_true, bne_iff_ne, ne_eq] at hn
+  unfold truncName
+  rw [List.take_of_length_le hl]
+  rw [dropWhile_id_of_head (p := (· = ' ')), List.reverse_reverse]
+  intro c hc
+  rw [List.head?_reverse] at hc
+  have : c ≠ ' ' := by rintro rfl; exact hn.2 hc
+  simpa using this
+
+/-- PHYLIP: parse (write recs) = recs with names truncated as documented -/
+theorem phylip_roundtrip' {bs : Nat} (hbs : 0 < bs) (recs : List Rec) (hne : recs ≠ []) (L : Nat)
+    (hwf : ∀ r ∈ recs, wfName r.1 = true ∧ wfSeq [] r.2 = true ∧ r.2.length = L) :
+    ∃ text, phylipFormat bs recs = .ok text ∧
+      phylipParse text = .ok (recs.map (fun r => (truncName r.1, r.2))) := by
+  cases hrecs : recs with
+  | nil => exact absurd hrecs hne
+  | cons r0 rest =>
+    rw [← hrecs]
+    have h0 := hwf r0 (by rw [hrecs]; exact List.mem_cons_self)
+    have hL0 : r0.2.length = L := h0.2.2
+    have hLpos : 0 < L := by rw [← hL0]; exact List.length_pos_iff.mpr (wfSeq_chars h0.2.1).1
+    have hhead : headerLine recs = some (natDigits recs.length ++ ' ' :: ' ' :: natDigits L) := by
+      rw [hrecs]; simp [headerLine, hL0]
+    have hw : WfRecs [] (blocked bs recs) := blocked_wf hbs (fun r hr => ⟨(hwf r hr).1, (hwf r hr).2.1⟩)
+    have hfmt : phylipFormat bs recs = .ok ((natDigits recs.length ++ ' ' :: ' ' :: natDigits L) ++ '\n' ::
+        unlines (recs.flatMap (fun r => phylipBlocks bs L r.1 r.2 (L + 1) 0))) := by
+      unfold phylipFormat
+      rw [hhead, hrecs]
+      simp only [hL0]
+    refine ⟨_, hfmt, ?_⟩
+    rw [phyLines_eq hbs recs (fun r hr => (hwf r hr).2.2), ← unlines_cons]
+    unfold phylipParse
+    rw [pySplitlines_unlines (noBreak_cons (header_noBreak _ _) (phyLines_noBreak hw))]
+    unfold phylipParser
+    have hn0 : ¬ ((recs.length : Int) = 0) := by
+      have : 0 < recs.length := List.length_pos_iff.mpr hne
+      omega
+    have hl0 : ¬ ((L : Int) = 0) := by omega
+    simp only [splitWs_header, pyInt_natDigits, bind, Except.bind, hn0, hl0, decide_false, Bool.or_self,
+      Bool.false_eq_true, if_false, List.isEmpty_nil, if_true]
+    rw [phySeqGo_recs (blocked bs recs) none hw]
+    congr 1
+    simp only [cacheOut, List.nil_append, blocked, List.map_map]
+    apply List.map_congr_left
+    intro r _
+    simp [chunkWrap_flatten hbs]
+
 end CogentModel.SeqFormats
